@@ -23,7 +23,7 @@ import time
 import sympy
 import z3
 
-from lib.common import (HarnessError, Stats, count_obligation, finish, load_known_findings,
+from lib.common import (split_check, HarnessError, Stats, count_obligation, finish, load_known_findings,
                         main_wrapper, run_sharded, seed, z3_check)
 from lib.symx import model as M
 from lib.symx.refexec import holders_by_memory, liveness_concrete, liveness_z3
@@ -164,10 +164,13 @@ def check_instance(payload, K, st: Stats):
                 s.check()
         else:
             s.add(neg)
-            r = z3_check(s, st, 240000)
-        count_obligation(st, r, label + d)
-        if r == "unknown":
-            st.extra.setdefault("unknown_obligations", []).append((label + " " + d)[:300])
+            r = z3_check(s, st, 120000)
+            if r == "unknown":
+                r, fix = split_check(s, list(nvar.values()), lo or 1, K, st)
+                if r == "sat":
+                    s.add(fix)
+                    s.check()
+        count_obligation(st, r, label + " " + d)
         if r == "sat":
             # prefer a witness with small integer bits-per-value (reported and peak bits are then
             # integers, so the concrete replay is not at the mercy of float tolerances)
